@@ -82,8 +82,11 @@ for pid in ["C11", "C02", "C13"]:
 # C10: "validly configured context" includes the documented maximum of 30 message types
 add("c10__q__proc_len12_nt30", 70, "own", "proc::one::<_, C10, 12, 30, 1, true>")
 # C10: maximum-size input through the processor (bare harness, see proc::long)
-add("c10__t__proc_long259", 262, "own", "proc::long::<_, C10, 259>")
-add("c10__t__proc_long256", 262, "own", "proc::long::<_, C10, 256>")
+# (259 bytes: did not finish within the 30-minute per-harness limit either — 128 is what is registered)
+add("c10__t__proc_long128", 132, "own", "proc::long::<_, C10, 128>")
+# C05: ... and carry the single-packet transport header whatever the request's flags were
+for n in (12, 13):
+    add("c05__q__proc_len%d" % n, 70, "ign", "proc::one::<_, C05, %d, 3, 2, false>" % n)
 # C07: the responses process_packet writes are encoded control responses as well
 for n in PROC_Q:
     add("c07__q__proc_len%d" % n, 70, "ign", "proc::one::<_, C07, %d, 3, 2, false>" % n)
@@ -204,7 +207,9 @@ for e in ENC:
     enc_harness("C16", e, own="own")
     # C04: framing for ok instances, refusal for oversize instances
     if ok or e["flags"] == "oversize":
-        enc_harness("C04", e, tier="t" if (e["big"] and ok and e["short"] != "vendor_pci247") else None)
+        # own: a panic of the encoder or of the length probe on the encoded packet is not "returns that
+        # same length" / "is refused" (C04-F: u8 overflow inside get_length for byte counts 252..=255)
+        enc_harness("C04", e, tier="t" if (e["big"] and ok and e["short"] != "vendor_pci247") else None, own="own")
     if refuse_only:
         if k == "msg" and e["flags"] == "refuse":
             enc_harness("C08", e)
@@ -218,8 +223,9 @@ for e in ENC:
     if not e["big"]:
         enc_harness("C05", e)
         enc_harness("C13", e)
-    elif e["short"] in ("vendor_pci247", "raw_spdm_h0_249"):
-        enc_harness("C05", e, tier="t")
+    elif e["short"] in ("vendor_pci247", "vendor_iana245", "raw_spdm_h0_249", "raw_ctrl_h2_247"):
+        # every writer once at its maximum size in quick: flags that depend on the body length (C05-E)
+        enc_harness("C05", e, tier="q")
     if k == "req":
         enc_harness("C06", e)
     if k == "resp":
